@@ -458,7 +458,9 @@ func (s *Stream) handleFrame(f Frame) (err error) {
 		}
 	}
 
-	if err != nil {
+	if err != nil && s.state == StateActive {
+		// Only start the closing handshake if we have not started it already: an endpoint must not send more than
+		// one Close frame.
 		s.state = StateClosedByUs
 		// TODO consider flushing the close
 		s.prepareClose(EncodeCloseFramePayload(CloseProtocolError, ""))
